@@ -492,6 +492,8 @@ func (p *Process) onProcessEnd(state string) {
 	if p.readyProber != nil {
 		p.readyCancelFn()
 	}
+	// no-op if the ready log line was already seen
+	p.readyLogCancelFn(fmt.Errorf("process %s ended", p.getName()))
 	p.setState(state)
 	p.updateProcState()
 
